@@ -69,8 +69,34 @@ def generate(rng, tier):
             lines.append('ppu.st')
         lines.append('oam.dump')
         cases.append(('mix%d' % i, lines))
+    # the corruption bookkeeping of the OAM model (what C17 builds on): random CPU-side accesses inside and
+    # outside the mode-2 window, for every row the PPU may have accessed last, incl. addresses outside OAM
+    nbug = 400 if tier == 'quick' else 5000
+    for i in range(nbug):
+        lines = ['oam.fill %d %d' % (rng.randrange(256), rng.randrange(256))]
+        r = rng.random()
+        pla = (0xfe00 + rng.randrange(160)) if r < 0.9 else rng.choice([0, 0xfdff, 0xfea0, 0xfeff, 0xff00, 0xffff, rng.randrange(65536)])
+        lines.append('oam.pla %d' % pla)
+        for _ in range(rng.randrange(1, 12)):
+            q = rng.random()
+            a = 0xfe00 + rng.randrange(256)
+            if q < 0.15:
+                lines.append(rng.choice(['oam.enter', 'oam.exit']))
+            elif q < 0.35:
+                lines.append('oam.w %d %d' % (a, rng.randrange(256)))
+            elif q < 0.55:
+                lines.append('oam.r %d' % a)
+            elif q < 0.7:
+                lines.append('oam.trig %d' % rng.choice([a, a, 0xfdff, 0xff00, rng.randrange(65536)]))
+            elif q < 0.75:
+                lines.append('oam.pr %d' % (0xfe00 + rng.randrange(160)))
+            else:
+                lines += ['oam.corrupt', 'oam.st']
+        lines += ['oam.corrupt', 'oam.dump', 'oam.st']
+        cases.append(('bug%d' % i, lines))
     info = dict(exhaustive=False,
                 input_distribution=dict(pages=256 * reps, restart_cases=nre, mixed_ppu_cases=nmix,
+                                        oam_bug_model_cases=nbug,
                                         dma_cycles=sum(int(l.split()[1]) for c in cases for l in c[1]
                                                        if l.startswith('dma.run'))),
                 samples=[dict(case=c[0], script=c[1]) for c in (cases[0xE5], cases[256 * reps + 3])])
@@ -89,6 +115,8 @@ def matches_known(k, case, impl, model):
 
 
 def spec_check(script, out):
+    if any(l.startswith(('oam.pla', 'oam.enter')) for l in script):
+        return None            # corruption-model cases: correspondence only
     """statement-level expectation: FF46 read-back; 0xFF from Read while a transfer runs (fewer than 162 cycles
     since the last write to FF46); after 162 uninterrupted cycles the dump is the source as copied and Read
     returns it (0 for FEA0-FEFF)."""
